@@ -671,6 +671,9 @@ pub struct Exp {
     /// after this step the actor's capability negotiation must be open (Some(true))
     /// / closed (Some(false))
     pub cap_open_after: Option<bool>,
+    /// registration data the connection must remember after this step
+    /// (nick, user name, supplied password) while registration is incomplete
+    pub reg_after: Option<(Option<String>, Option<String>, Option<String>)>,
 }
 
 // ---------------------------------------------------------------------------
@@ -2004,8 +2007,13 @@ fn step_unregistered(m: &M, cfg: &SpecCfg, actor: &Actor, verb: &str, p: &[Strin
                 return Some(e);
             }
         }
-        // not complete yet: no reply expected besides nothing
+        // not complete yet: no reply expected besides nothing; what was supplied so
+        // far is remembered for the completion attempt that follows
         e.no_welcome = true;
+        e.reg_after = Some((nick.clone(), name.clone(), pass.clone()));
+        if verb == "CAP" {
+            e.cap_open_after = Some(false);
+        }
         if verb == "CAP" {
             e.actor_unchecked = true;
         }
